@@ -200,7 +200,15 @@ def tsCheck : List TrackCfg → Bool → Bool → Option StartErr
       else if t.codec ≠ .aac then some .tsAudioCodec
       else tsCheck ts hasV true
 
-def start (cfg : Cfg) : Except StartErr State :=
+/-- the zero-value defaults of `Muxer.Start` -/
+def Cfg.withDefaults (c : Cfg) : Cfg :=
+  { c with segmentCount := if c.segmentCount = 0 then 7 else c.segmentCount,
+           segmentMinDur := if c.segmentMinDur = 0 then 1 * S else c.segmentMinDur,
+           partMinDur := if c.partMinDur = 0 then 200 * 1000000 else c.partMinDur,
+           segmentMaxSize := if c.segmentMaxSize = 0 then 50 * 1024 * 1024 else c.segmentMaxSize }
+
+def start (cfg0 : Cfg) : Except StartErr State :=
+  let cfg := cfg0.withDefaults
   if cfg.tracks.isEmpty then .error .noTracks else
   let e1 : Option StartErr :=
     match cfg.variant with
@@ -438,7 +446,7 @@ def fmp4Write (st : State) (ti : Nat) (ra changed : Bool) (smp : Sample) : State
   | none => (st, .ok)
   | some old =>
     let duration := smp.dts - old.dts
-    let old := { old with dur := duration }
+    let old := { old with dur := duration % 4294967296 }   -- `sample.Duration = uint32(duration)`
     let si := st.streamOf ti
     let lead := st.isLeadingTrack ti
     let hasSeg := (st.stream si).nextSegment.isSome
